@@ -8,6 +8,7 @@ from checks.serverfam import *
 from checks.c03 import srv_expect
 from harness.server_state import mk_client
 from native import oracle
+from checks import hobl
 
 
 def sym_map(ip, n):
@@ -252,6 +253,8 @@ def main(chk):
         tasks.append((o2_cancel, (prog, n)))
     chk.parallel(_dispatch, tasks)
 
+    # the cancel map along whole sessions (Client::handle executed): the key maps to the held server, and to nothing once it is released / the client is gone
+    hobl.handle_obligations(chk, chk.program('on'), {'C10'}, ['simple', 'session', 'extended', 'cuts', 'malformed', 'copy'])
 
 if __name__ == '__main__':
     run_check('C10', main)
